@@ -307,6 +307,15 @@ func Packets(thorough bool, yield func(n *wire.N)) {
 	for _, ol := range HbhOptionLists() {
 		yield(IPv6([]*wire.N{Hbh(0, clones(ol...)...)}, 58, Icmp(128, 4)))
 	}
+	// every extension-header chain inside an Ethernet frame (as it reaches the controller in a packet-in)
+	for _, ch := range ExtChains() {
+		yield(Eth(nil, 0x86dd, IPv6(clones(ch...), 58, Icmp(128, 4))))
+		yield(Eth(Vlan(2, 0, 7), 0x86dd, IPv6(clones(ch...), 6, Tcp(3))))
+	}
+	for _, ol := range []int{4, 40} {
+		yield(Eth(nil, 0x0800, IPv4(6, ol, Tcp(5))))
+		yield(Eth(nil, 0x0800, IPv4(17, ol, Udp(5))))
+	}
 	// Ethernet x {untagged, tagged} x ethertype x inner
 	inner := []struct {
 		et uint64
